@@ -67,7 +67,7 @@ CONSTANTS
   MaxJ = 2
   MaxItems = 2
   Emit = FALSE
-INVARIANTS Safe Bounded IdleWellFormed
+INVARIANTS Safe Bounded IdleWellFormed MicroRefinesMacro
 CHECK_DEADLOCK FALSE
 """
 PAIR_CFG = """SPECIFICATION Spec
@@ -102,6 +102,9 @@ SPEC_BUGS = [
          "RetainFix == /\\ pc = \"rt_fix\" /\\ pc' = \"rt\" /\\ L' = L /\\ UNCHANGED <<T, budget, viol, hist>>\n             /\\ A' = LET n == A.len IN IF L.i # n THEN [A EXCEPT !.s[L.i] = A.s[n], !.s[n].st = \"m\", !.len = n - 1] ELSE [A EXCEPT !.len = n - 1]\n\\* map.rs clear: len = 0 first"),
         ("  \\/ LookupAfter \\/ InsertTail \\/ RetainStep", "  \\/ LookupAfter \\/ InsertTail \\/ RetainStep \\/ RetainFix"),
     ], "Safe"),
+    ("micro: swap-remove forgets to move the last pair into the hole (the two layers disagree)", "MapMicro", MICRO_CFG, [
+        ("  IN IF i # n THEN [c1 EXCEPT !.s[i] = C.s[n], !.s[n].st = \"m\"] ELSE c1", "  IN IF i # n THEN [c1 EXCEPT !.s[i] = C.s[i], !.s[n].st = \"m\"] ELSE c1"),
+    ], "MicroRefinesMacro"),
     ("macro: retain advances after a removal", "MapSpec", MACRO_CFG % "FALSE", [
         ("       ELSE RetainLoop(SwapRemove(seen, i), i, keep, w, gone \\cup {seen[i]})", "       ELSE RetainLoop(SwapRemove(seen, i), i + 1, keep, w, gone \\cup {seen[i]})"),
     ], "RefinesDict", "Map"),
